@@ -237,6 +237,9 @@ def gen_platform_xml(targs):
     return xml
 
 
+STRICT = ("native", "unix32", "unix64", "win32A", "win32W", "win64")
+
+
 def target(pname):
     """-> (cppcheck platform args, extra files, compiler argv function)"""
     if pname in GEN:
@@ -397,6 +400,12 @@ def main(tier, replay=None):
                 continue
             pn, lang = out["platform"], out["lang"]
             if out["size_problems"]:
+                if pn not in skipped and (pn in STRICT or pn in GEN):
+                    # the built-in platform names denote these targets, and a generated file was written from the target:
+                    # a size that differs is itself a wrong constant (sizeof) for the selected platform
+                    ctx.violation("platform-sizes|%s|%s" % (pn, ",".join(out["size_problems"])),
+                                  "platform %s: cppcheck's sizes differ from the reference target in %s" % (pn, out["size_problems"]),
+                                  {"platform": pn, "lang": lang, "kind": "sizeof:long", "text": "sizeof(long)", "fields": out["size_problems"]})
                 skipped[pn] = out["size_problems"]
                 continue
             exprs = expressions(lang)[jb[2]:jb[3]]
